@@ -75,7 +75,9 @@ def demoHist : List Op :=
 
 example : (Cmd.list true [0, 1]).removes (runHist true demoHist) = [0] := by decide
 example : listRun (runHist true demoHist) [0, 1] = [.run, .ignore] := by decide
-example : (Cmd.info 1 false).removes (runHist true demoHist) = [1] := by decide
+example : (Cmd.info 0 false).removes (runHist true demoHist) = [0] := by decide
+/-- task 1 is ignored: `info` does not even call `get_status` -/
+example : (Cmd.info 1 false).removes (runHist true demoHist) = [] := by decide
 example : (Cmd.list true [0, 1]).removes (runHist true (demoHist.take 6)) = [] := by decide
 example : (Cmd.clean false true [0]).removes (runHist true demoHist) = [0] ∧
     (Cmd.clean true true [0]).removes (runHist true demoHist) = [] := by decide
@@ -169,38 +171,59 @@ example : listRun (runHist true overwrittenHist) [0] = [.error] := by decide
 /-- the full statement for `info` -/
 def C20_info_status_agrees_full : Prop := ∀ (s : St) (t : Name), infoShown s t = decision s t
 
-/-- **`info`**: for a task that is not ignored, the status shown is the decision of `run` exactly outside the two
-    situations of `logDisagree`.  Missing for `C20_info_status_agrees_full`: `info` never shows `ignore`
-    (`C20_info_ignored_counterexample`), and `logDisagree` (`C20_getlog_…_counterexample`). -/
-theorem C20_info_status_agrees_partial (s : St) (t : Name) (hign : (s.rcd t).ign = false)
+/-- **`info`** (tree as repaired: the ignore mark is consulted first): the status shown is the decision of `run`
+    exactly when the task is ignored or outside the two situations of `logDisagree`.
+    Missing for `C20_info_status_agrees_full`: `logDisagree` (`C20_getlog_…_counterexample`, open findings). -/
+theorem C20_info_status_agrees_partial (s : St) (t : Name)
     (hnc : (s.defs t).deps.any (depIs .crash s.checker (s.rcd t) s.fs) = false) :
-    infoShown s t = decision s t ↔ logDisagree s.checker (s.defs t) (s.rcd t) s.fs s.resOf = false := by
-  rw [← getlog_agrees_iff s.checker (s.defs t) (s.rcd t) s.fs s.resOf hnc]
-  simp only [infoShown, decision, hign, Bool.false_eq_true, if_false, St.statusLog, St.status]
-  generalize statusLog s.checker (s.defs t) (s.rcd t) s.fs s.resOf = a
-  generalize statusOf true s.checker (s.defs t) (s.rcd t) s.fs s.resOf = b
-  cases a <;> cases b <;> simp [ofStatus]
+    infoShown s t = decision s t ↔
+      ((s.rcd t).ign = true ∨ logDisagree s.checker (s.defs t) (s.rcd t) s.fs s.resOf = false) := by
+  cases hign : (s.rcd t).ign with
+  | true => simp [infoShown, decision, hign]
+  | false =>
+    rw [← getlog_agrees_iff s.checker (s.defs t) (s.rcd t) s.fs s.resOf hnc]
+    simp only [infoShown, decision, hign, Bool.false_eq_true, if_false, St.statusLog, St.status, false_or]
+    generalize statusLog s.checker (s.defs t) (s.rcd t) s.fs s.resOf = a
+    generalize statusOf true s.checker (s.defs t) (s.rcd t) s.fs s.resOf = b
+    cases a <;> cases b <;> simp [ofStatus]
 
-theorem C20_info_upToDate_iff (s : St) (t : Name) (hign : (s.rcd t).ign = false) :
+/-- an ignored task: `info` says `ignore` as `run` and `list -s` do, prints no reason, and does not touch the DB (not
+    even the documented removal: `get_status` is not called) -/
+theorem C20_info_ignored_agrees (s : St) (t : Name) (hign : (s.rcd t).ign = true) :
+    infoShown s t = decision s t ∧ infoShown s t = listShown s t ∧ infoPrinted s t = Reasons.none ∧
+    (Cmd.info t false).exec s = s ∧ (Cmd.info t false).removes s = [] := by
+  simp [infoShown, decision, listShown, infoPrinted, Cmd.exec, Cmd.removes, infoOne, hign]
+
+theorem C20_info_upToDate_iff (s : St) (t : Name) :
     infoShown s t = .upToDate ↔ decision s t = .upToDate := by
   have := St.statusLog_upToDate_iff s t
-  simp only [infoShown, decision, hign, Bool.false_eq_true, if_false]
-  generalize s.statusLog t = a at this ⊢
-  generalize s.status true t = b at this ⊢
-  cases a <;> cases b <;> simp_all [ofStatus]
+  simp only [infoShown, decision]
+  cases (s.rcd t).ign
+  · simp only [Bool.false_eq_true, if_false]
+    generalize s.statusLog t = a at this ⊢
+    generalize s.status true t = b at this ⊢
+    cases a <;> cases b <;> simp_all [ofStatus]
+  · simp
 
-/-- F-C20 (c): `info` on an ignored task shows what `get_status` says, `run` skips the task as ignored -/
+/-- F-C20 (c), the pinned tree (`Info._execute` never consulted `ignore:`; repaired by the `fix:` commit "`doit info`
+    shows status "ignore" for an ignored task"): `info` on an ignored task showed what `get_status` says while `run`
+    skips the task as ignored -/
 def ignoredHist : List Op := [.edit 0 4 1, .redefine 0 ⟨[0], [], []⟩, .ignore 0]
 
-theorem C20_info_ignored_counterexample :
-    decision (runHist true ignoredHist) 0 = .ignore ∧ infoShown (runHist true ignoredHist) 0 = .run ∧
+theorem C20_pinned_info_ignored_counterexample :
+    decision (runHist true ignoredHist) 0 = .ignore ∧ infoShownPinned (runHist true ignoredHist) 0 = .run ∧
     listShown (runHist true ignoredHist) 0 = .ignore := by decide
 
+/-- the same history on the repaired tree -/
+example : infoShown (runHist true ignoredHist) 0 = .ignore := by decide
+
+/-- the full statement is still false: F-C20 (a) -/
 theorem C20_info_counterexample : ¬ C20_info_status_agrees_full := by
   intro h
-  have := h (runHist true ignoredHist) 0
-  have hc := C20_info_ignored_counterexample
-  rw [hc.1, hc.2.1] at this
+  have := h (runHist true overwrittenHist) 0
+  have h1 : infoShown (runHist true overwrittenHist) 0 = .run := by decide
+  have h2 : decision (runHist true overwrittenHist) 0 = .error := by decide
+  rw [h1, h2] at this
   exact absurd this (by decide)
 
 /-! ## the reasons `info` prints -/
